@@ -34,6 +34,17 @@ def main():
                 net = Network(rs, elements=list(cfg["elements"]), pseudo_elements=list(cfg["pseudo"]),
                               required_species=list(job["required"]) or None)
                 out = {"species": [s.name for s in net.species], "elements": [e.name for e in net.elements]}
+                # the host-code patch, rendered before anything else looks at the species' aliases (as `naunet render --patch enzo`
+                # does in a process of its own)
+                try:
+                    import re
+                    import tempfile
+                    from naunet.patches import EnzoPatch
+                    with tempfile.TemporaryDirectory() as d:
+                        EnzoPatch("cpu").render(net, templates=["naunet_enzo.h.j2"], path=d)
+                        out["enzo"] = re.findall(r"^#define A_(\S+)\s", (Path(d) / "naunet_enzo.h").read_text(), re.M)
+                except Exception:
+                    out["enzo"] = None
         except Exception as e:
             out = {"error": type(e).__name__}
         print(json.dumps(out), flush=True)
